@@ -268,5 +268,51 @@ def main(argv):
     return 1 if fails else 0
 
 
+def run(pid, res):
+    """thorough-tier hook: the mutants / controls of `pid` against a scratch copy; failures make the run an ANALYSIS-ERROR"""
+    from .cfront import AnalysisError
+    todo = [m for m in M if m["pid"] == pid]
+    if not todo:
+        return
+    res.rule("SELFTEST", "scratch-copy mutants must be reported naming the construct; controls must stay silent", floor=0)
+    bad = []
+    summary = {}
+    with scratch.scratch(["include", "src", "cmake", "CMakeLists.txt"]) as root:
+        code, out = scratch.run_check(pid, root)
+        if code == 2:
+            raise AnalysisError(f"self-test baseline of {pid} is an analysis error: {out[-300:]}")
+        base = reported(out)
+        for m in todo:
+            p_, src = _apply(root, m)
+            if p_ is None:
+                summary[m["id"]] = "stale"
+                bad.append((m["id"], "stale anchor"))
+                continue
+            try:
+                code, out = scratch.run_check(pid, root)
+            finally:
+                open(p_, "w").write(src)
+            new = reported(out) - base
+            if m["expect"] is not None and m["expect"].startswith("FIXES "):
+                want = _LINE.findall(m["expect"][6:] + ": ")
+                if bool(want) and want[0] not in base:
+                    ok, st = (code != 2 and not new), "fix-in-tree"      # the repair is already committed
+                else:
+                    ok, st = (code != 2 and not new and bool(want) and want[0] not in reported(out)), "fixed"
+            elif m["expect"] is None:
+                ok, st = (code != 2 and not new and not (base - reported(out))), "silent"
+            else:
+                want = _LINE.findall(m["expect"] + ": ")
+                ok, st = ((code == 1 and bool(want) and want[0] in new) or code == 2), ("fired" if code == 1 else "refused")
+            summary[m["id"]] = st if ok else "FAILED"
+            if ok:
+                res.ok("SELFTEST", m["id"], {"status": st})
+            else:
+                bad.append((m["id"], f"exit={code} new={sorted(new)[:4]} expected={m['expect']}"))
+    res.extra["selftest"] = summary
+    if bad:
+        raise AnalysisError("checker self-test failed: " + "; ".join(f"{a}: {b[:240]}" for a, b in bad))
+
+
 if __name__ == "__main__":
     sys.exit(main(sys.argv[1:]))
